@@ -27,6 +27,12 @@ KINDS = {
     "metavar-unalias": ("@@\nvar x expression\nvar n identifier\n@@\n-import n \"{T}\"\n+import \"{T}\"\n\n-n.F(x)\n+{r}.F(x)\n", ["minus-mv"]),
     # the first match in source order sits where the replacement does not fit (a field name); later ones are rewritten
     "add-unfit-first": ("@@\n@@\n+import \"{N}\"\n\n-legacyName\n+{n}.Name\n", []),
+    # a blank / dot import on a '-' line (nothing in the code refers to it by name)
+    "delete-blank": ("@@\nvar x expression\n@@\n-import _ \"{T}\"\n\n-legacy(x)\n+builtin(x)\n", ["minus"]),
+    "delete-dot": ("@@\nvar x expression\n@@\n-import . \"{T}\"\n\n-legacy(x)\n+builtin(x)\n", ["minus"]),
+    "replace-blank": ("@@\nvar x expression\n@@\n-import _ \"{T}\"\n+import _ \"{N}\"\n\n-legacy(x)\n+builtin(x)\n", ["minus"]),
+    # two changes add the same import; only the later one applies to the file
+    "add-after-unmatched-add": ("@@\nvar x expression\n@@\n+import \"{N}\"\n\n-neverThere(x)\n+{n}.G(x)\n\n@@\nvar x expression\n@@\n+import \"{N}\"\n\n-legacy(x)\n+{n}.F(x)\n", []),
     "same-name-takeover": ("@@\nvar x expression\n@@\n-import {TS}\n+import {t} \"{N}\"\n\n-{t}.F(x)\n+{t}.F(x, 1)\n", ["minus"]),
 }
 
@@ -42,6 +48,10 @@ def gen(rng, k):
     npath, nreal = NEW[(k // 7) % 2]
     # how the file imports the target; how the patch states it
     fform = rng.choice([None, None, "alias", treal])          # file-side name
+    if kind in ("delete-blank", "replace-blank"):
+        fform = "_"
+    if kind == "delete-dot":
+        fform = "."
     if "minus-mv" in roles or "context-mv" in roles:
         pform = "$n"
     else:
@@ -67,9 +77,9 @@ def gen(rng, k):
         if has_target:
             body.append("func keep() { %s.Other() }" % t)
         body_fixed = True
-    elif kind in ("add", "add-named"):
+    elif kind in ("add", "add-named", "add-after-unmatched-add", "delete-blank", "delete-dot", "replace-blank"):
         body.append("func a() { legacy(1); legacy(a + b) }")
-        if has_target:
+        if has_target and fform not in ("_", "."):
             body.append("func keep() { %s.Other() }" % t)
     else:
         body.append("func a() { %s.F(1); _ = %s.F(q) }" % (t, t))
@@ -159,7 +169,7 @@ def judge(c, o):
         if p not in mentioned and I[(n, p)] == 0:
             bad.append(("import %s, which the patch does not mention, was added" % spec(n, p), None))
     # '+' imports
-    if c["kind"] in ("add", "add-unfit-first", "replace", "replace-all-selectors", "metavar-match-add"):
+    if c["kind"] in ("add", "add-unfit-first", "replace", "replace-all-selectors", "metavar-match-add", "add-after-unmatched-add"):
         if (None, c["new"][0]) not in O:
             bad.append(("the '+' import \"%s\" (unnamed) is missing from the output" % c["new"][0], None))
     if c["kind"] == "add-named" and ("nn", c["new"][0]) not in O:
